@@ -84,8 +84,8 @@ CONTRACTS = {
  # ---- C03 generous: for ranks R, R-1, ..., cut: minimise the number of students at that rank, freezing each optimum
  M + 'optimisation_generous': dict(
     params={'additional_arguments': ('list', 'int')},
-    requires=['has_vars(self.model.rank_lists)', 'self.model.num_students >= 0'],
-    defs={'R': ([], 'len(self.model.rank_lists)'),
+    requires=['has_vars(self.model.rank_lists)', 'self.model.num_students >= 0', 'has_vars(self.model.pairs)', 'len(self.model.pairs) == self.model.num_students', ('rank-list-sums-for-every-weight', 'forall(j, 0, len(self.model.rank_lists), wsum(self.model.rank_lists[j]) == RANKW(j))'), ('pair-variables-are-binary', 'implies(feas(), pairs_binary(self.model))'), ('partial-assignment-constraints-present', 'implies(feas(), rows_partial(self.model))')],
+    defs={'RANKW': (['j'], 'Sum(i, len(self.model.pairs), Sum(c, len(self.model.pairs[i]), ite(self.model.pairs[i][c].rank_student == j + 1, W(self.model.pairs[i][c]), 0)))'), 'R': ([], 'len(self.model.rank_lists)'),
           'cut': ([], 'ite(len(additional_arguments) < 1, 1, additional_arguments[0])'),
           'N': ([], 'ite(R() > max(0, cut() - 1), R() - max(0, cut() - 1), 0)'),          # number of ranks visited
           'ov': (['r'], "indexedvar('obj_generous_rank_', r)"),
@@ -102,7 +102,16 @@ CONTRACTS = {
                               'forall(u, implies(u < old(solves()), hist(u) == old(hist(u))))',
                               'implies(_k == 0, status() == old(status()))', 'implies(_k > 0, hist(solves() - 1) == status())',
                               'implies(solves() > old(solves()), self.solve_performed) and implies(solves() == old(solves()), self.solve_performed == old(self.solve_performed))'])},
-    use_lemmas={'after_call:get_all_vars_at_rank': [('SUM/ext', {'f': 'lam(q, len(result), nu(result[q]))',
+    # witness-in-bounds for the per-rank objective variables: the number of students at rank r is a sum over a rank list; the lists'
+    # sum identity (required for EVERY weight, instantiated with the variable values) turns it into a filtered sum over all pairs,
+    # which is at most the sum of the row sums, which is at most the number of students
+    instantiate={'entry': [('rank-list-sums-for-every-weight', {'W': (['x'], 'nu(x.lp_var)')})]},
+    use_lemmas={'entry': [('SUM/le', {'f': 'lam(c, len(self.model.pairs[i]), ite(self.model.pairs[i][c].rank_student == j + 1, nu(self.model.pairs[i][c].lp_var), 0))', 'g': 'var_terms(self.model.pairs[i], len(self.model.pairs[i]))', 'n': 'len(self.model.pairs[i])'}, 'forall:j,i'),
+                          ('SUM/nonneg', {'f': 'lam(c, len(self.model.pairs[i]), ite(self.model.pairs[i][c].rank_student == j + 1, nu(self.model.pairs[i][c].lp_var), 0))', 'n': 'len(self.model.pairs[i])'}, 'forall:j,i'),
+                          ('SUM/le', {'f': 'lam(i, len(self.model.pairs), Sum(c, len(self.model.pairs[i]), ite(self.model.pairs[i][c].rank_student == j + 1, nu(self.model.pairs[i][c].lp_var), 0)))', 'g': 'lam(i, len(self.model.pairs), varsum(self.model.pairs[i]))', 'n': 'len(self.model.pairs)'}, 'forall:j'),
+                          ('SUM/nonneg', {'f': 'lam(i, len(self.model.pairs), Sum(c, len(self.model.pairs[i]), ite(self.model.pairs[i][c].rank_student == j + 1, nu(self.model.pairs[i][c].lp_var), 0)))', 'n': 'len(self.model.pairs)'}, 'forall:j'),
+                          ('C02/size-bound', {'r': 'lam(i, len(self.model.pairs), varsum(self.model.pairs[i]))', 'n': 'len(self.model.pairs)'}, 'if-applicable')],
+                'after_call:get_all_vars_at_rank': [('SUM/ext', {'f': 'lam(q, len(result), nu(result[q]))',
                                                                  'g': 'lam(q, len(result), nu(self.model.rank_lists[r - 1][q].lp_var))',
                                                                  'n': 'len(result)'})]},
     modifies=['self.info_string', 'self.solve_performed', 'ghost:feas', 'ghost:val', 'ghost:status', 'ghost:hist', 'ghost:solves', 'ghost:objective', 'ghost:feas_at_solve'],
@@ -111,13 +120,14 @@ CONTRACTS = {
              ('all-ranks-visited-unless-a-solve-failed', 'implies(status() == 1 or solves() == old(solves()), solves() == old(solves()) + N())'),
              ('only-the-last-solve-may-have-failed', 'forall(u, old(solves()), solves() - 1, hist(u) == 1)'),
              ('status-is-that-of-the-last-solve', 'implies(solves() > old(solves()), hist(solves() - 1) == status()) and implies(solves() == old(solves()), status() == old(status()))'),
+             ('every-feasible-rank-count-fits-the-objective-variables', 'implies(old(feas()), forall(j, 0, R(), 0 <= varsum(self.model.rank_lists[j]) and varsum(self.model.rank_lists[j]) <= self.model.num_students))'),
              ('earlier-history-unchanged', 'forall(u, implies(u < old(solves()), hist(u) == old(hist(u))))'), ('solve-recorded', 'implies(solves() > old(solves()), self.solve_performed) and implies(solves() == old(solves()), self.solve_performed == old(self.solve_performed))')]),
 
  # ---- C03 greedy: for ranks 1, 2, ..., min(cut, R): maximise the number of students at that rank, freezing each optimum
  M + 'optimisation_greedy': dict(
     params={'additional_arguments': ('list', 'int')},
-    requires=['has_vars(self.model.rank_lists)', 'self.model.num_students >= 0'],
-    defs={'R': ([], 'len(self.model.rank_lists)'),
+    requires=['has_vars(self.model.rank_lists)', 'self.model.num_students >= 0', 'has_vars(self.model.pairs)', 'len(self.model.pairs) == self.model.num_students', ('rank-list-sums-for-every-weight', 'forall(j, 0, len(self.model.rank_lists), wsum(self.model.rank_lists[j]) == RANKW(j))'), ('pair-variables-are-binary', 'implies(feas(), pairs_binary(self.model))'), ('partial-assignment-constraints-present', 'implies(feas(), rows_partial(self.model))')],
+    defs={'RANKW': (['j'], 'Sum(i, len(self.model.pairs), Sum(c, len(self.model.pairs[i]), ite(self.model.pairs[i][c].rank_student == j + 1, W(self.model.pairs[i][c]), 0)))'), 'R': ([], 'len(self.model.rank_lists)'),
           'cut': ([], 'ite(len(additional_arguments) < 1, R(), additional_arguments[0])'),
           'N': ([], 'max(0, min(cut() + 1, R() + 1) - 1)'),
           'ov': (['r'], "indexedvar('obj_greedy_rank_', r)"),
@@ -132,7 +142,16 @@ CONTRACTS = {
                               'forall(u, implies(u < old(solves()), hist(u) == old(hist(u))))',
                               'implies(_k == 0, status() == old(status()))', 'implies(_k > 0, hist(solves() - 1) == status())',
                               'implies(solves() > old(solves()), self.solve_performed) and implies(solves() == old(solves()), self.solve_performed == old(self.solve_performed))'])},
-    use_lemmas={'after_call:get_all_vars_at_rank': [('SUM/ext', {'f': 'lam(q, len(result), nu(result[q]))',
+    # witness-in-bounds for the per-rank objective variables: the number of students at rank r is a sum over a rank list; the lists'
+    # sum identity (required for EVERY weight, instantiated with the variable values) turns it into a filtered sum over all pairs,
+    # which is at most the sum of the row sums, which is at most the number of students
+    instantiate={'entry': [('rank-list-sums-for-every-weight', {'W': (['x'], 'nu(x.lp_var)')})]},
+    use_lemmas={'entry': [('SUM/le', {'f': 'lam(c, len(self.model.pairs[i]), ite(self.model.pairs[i][c].rank_student == j + 1, nu(self.model.pairs[i][c].lp_var), 0))', 'g': 'var_terms(self.model.pairs[i], len(self.model.pairs[i]))', 'n': 'len(self.model.pairs[i])'}, 'forall:j,i'),
+                          ('SUM/nonneg', {'f': 'lam(c, len(self.model.pairs[i]), ite(self.model.pairs[i][c].rank_student == j + 1, nu(self.model.pairs[i][c].lp_var), 0))', 'n': 'len(self.model.pairs[i])'}, 'forall:j,i'),
+                          ('SUM/le', {'f': 'lam(i, len(self.model.pairs), Sum(c, len(self.model.pairs[i]), ite(self.model.pairs[i][c].rank_student == j + 1, nu(self.model.pairs[i][c].lp_var), 0)))', 'g': 'lam(i, len(self.model.pairs), varsum(self.model.pairs[i]))', 'n': 'len(self.model.pairs)'}, 'forall:j'),
+                          ('SUM/nonneg', {'f': 'lam(i, len(self.model.pairs), Sum(c, len(self.model.pairs[i]), ite(self.model.pairs[i][c].rank_student == j + 1, nu(self.model.pairs[i][c].lp_var), 0)))', 'n': 'len(self.model.pairs)'}, 'forall:j'),
+                          ('C02/size-bound', {'r': 'lam(i, len(self.model.pairs), varsum(self.model.pairs[i]))', 'n': 'len(self.model.pairs)'}, 'if-applicable')],
+                'after_call:get_all_vars_at_rank': [('SUM/ext', {'f': 'lam(q, len(result), nu(result[q]))',
                                                                  'g': 'lam(q, len(result), nu(self.model.rank_lists[r - 1][q].lp_var))',
                                                                  'n': 'len(result)'})]},
     modifies=['self.info_string', 'self.solve_performed', 'ghost:feas', 'ghost:val', 'ghost:status', 'ghost:hist', 'ghost:solves', 'ghost:objective', 'ghost:feas_at_solve'],
@@ -141,6 +160,7 @@ CONTRACTS = {
              ('all-ranks-visited-unless-a-solve-failed', 'implies(status() == 1 or solves() == old(solves()), solves() == old(solves()) + N())'),
              ('only-the-last-solve-may-have-failed', 'forall(u, old(solves()), solves() - 1, hist(u) == 1)'),
              ('status-is-that-of-the-last-solve', 'implies(solves() > old(solves()), hist(solves() - 1) == status()) and implies(solves() == old(solves()), status() == old(status()))'),
+             ('every-feasible-rank-count-fits-the-objective-variables', 'implies(old(feas()), forall(j, 0, R(), 0 <= varsum(self.model.rank_lists[j]) and varsum(self.model.rank_lists[j]) <= self.model.num_students))'),
              ('earlier-history-unchanged', 'forall(u, implies(u < old(solves()), hist(u) == old(hist(u))))'), ('solve-recorded', 'implies(solves() > old(solves()), self.solve_performed) and implies(solves() == old(solves()), self.solve_performed == old(self.solve_performed))')]),
 
  # all decision variables, row after row: the sum of their values is the sum of the row sums (= size of the matching)
@@ -276,17 +296,18 @@ CONTRACTS = {
  # ---- C04 / C14 / C16: criteria are dispatched in list order; after the first solve that is not Optimal nothing more is solved
  M + 'run_optimisations': dict(
     params={'optimisation_options': ('list', 'crit')},
-    requires=MODEL_OK + ['pairs_ok(self.model)', 'has_vars(self.model.rank_lists)', 'self.model.num_lecturers >= 1', ('partial-assignment-constraints-present', 'implies(feas(), rows_partial(self.model))'), ('deviation-variables-are-bounded', 'implies(feas() and exists(a, 0, len(optimisation_options), optimisation_options[a][0] == Optimisation_options.LOADMAXBAL or optimisation_options[a][0] == Optimisation_options.LOADSUMBAL or optimisation_options[a][0] == Optimisation_options.MINCOSTLSB), forall(k, 0, self.model.num_lecturers, 0 <= nu(self.model.abs_lec_diff[k]) and nu(self.model.abs_lec_diff[k]) <= self.model.lec_upper_quotas[k]))'),
+    requires=MODEL_OK + ['pairs_ok(self.model)', 'has_vars(self.model.rank_lists)', 'self.model.num_lecturers >= 1', ('partial-assignment-constraints-present', 'implies(feas(), rows_partial(self.model))'), ('rank-list-sums-for-every-weight', 'forall(j, 0, len(self.model.rank_lists), wsum(self.model.rank_lists[j]) == RANKW(j))'), ('pair-variables-are-binary', 'implies(feas(), pairs_binary(self.model))'), ('deviation-variables-are-bounded', 'implies(feas() and exists(a, 0, len(optimisation_options), optimisation_options[a][0] == Optimisation_options.LOADMAXBAL or optimisation_options[a][0] == Optimisation_options.LOADSUMBAL or optimisation_options[a][0] == Optimisation_options.MINCOSTLSB), forall(k, 0, self.model.num_lecturers, 0 <= nu(self.model.abs_lec_diff[k]) and nu(self.model.abs_lec_diff[k]) <= self.model.lec_upper_quotas[k]))'),
               ('each-criterion-at-most-once', 'forall(a, 0, len(optimisation_options), forall(b, a + 1, len(optimisation_options), optimisation_options[a][0] != optimisation_options[b][0]))'),
               ('criteria-are-members', 'forall(a, 0, len(optimisation_options), 1 <= optimisation_options[a][0] and optimisation_options[a][0] <= 9)'),
               ('extras-are-lists-where-used', 'forall(a, 0, len(optimisation_options), implies(optimisation_options[a][0] == Optimisation_options.GENEROUS or optimisation_options[a][0] == Optimisation_options.GREEDY or optimisation_options[a][0] == Optimisation_options.MINCOST or optimisation_options[a][0] == Optimisation_options.MINSQCOST or optimisation_options[a][0] == Optimisation_options.MINCOSTLSB, optimisation_options[a][1] != None))'),
               ('load-balancing-variables-exist-when-needed', 'implies(exists(a, 0, len(optimisation_options), optimisation_options[a][0] == Optimisation_options.LOADMAXBAL or optimisation_options[a][0] == Optimisation_options.LOADSUMBAL or optimisation_options[a][0] == Optimisation_options.MINCOSTLSB), len(self.model.abs_lec_diff) == self.model.num_lecturers)'),
               "not used('obj_maxsize')", "not used('obj_minsize')", "not used('obj_mincost')", "not used('obj_minsqcost')", "not used('lec_max_abs_diff')", "not used('lec_sum_abs_diff')", "not used('obj_mincostlsb')"],
+    defs={'RANKW': (['j'], 'Sum(i, len(self.model.pairs), Sum(c, len(self.model.pairs[i]), ite(self.model.pairs[i][c].rank_student == j + 1, W(self.model.pairs[i][c]), 0)))')},
     loops={0: dict(invariant=[('no-solve-after-a-failure', 'forall(u, old(solves()), solves(), hist(u) == 1)'),
                               'solves() >= old(solves())', 'forall(u, implies(u < old(solves()), hist(u) == old(hist(u))))',
                               'implies(solves() == old(solves()), status() == old(status()))', 'implies(solves() > old(solves()), hist(solves() - 1) == status())',
                               'implies(solves() > old(solves()), self.solve_performed) and implies(solves() == old(solves()), self.solve_performed == old(self.solve_performed))',
-                              ('constraints-only-grow', 'implies(feas(), old(feas()))'), ('partial-assignment-constraints-present', 'implies(feas(), rows_partial(self.model))'), ('deviation-variables-are-bounded', 'implies(feas() and exists(a, 0, len(optimisation_options), optimisation_options[a][0] == Optimisation_options.LOADMAXBAL or optimisation_options[a][0] == Optimisation_options.LOADSUMBAL or optimisation_options[a][0] == Optimisation_options.MINCOSTLSB), forall(k, 0, self.model.num_lecturers, 0 <= nu(self.model.abs_lec_diff[k]) and nu(self.model.abs_lec_diff[k]) <= self.model.lec_upper_quotas[k]))'),
+                              ('constraints-only-grow', 'implies(feas(), old(feas()))'), ('partial-assignment-constraints-present', 'implies(feas(), rows_partial(self.model))'), ('pair-variables-are-binary', 'implies(feas(), pairs_binary(self.model))'), ('deviation-variables-are-bounded', 'implies(feas() and exists(a, 0, len(optimisation_options), optimisation_options[a][0] == Optimisation_options.LOADMAXBAL or optimisation_options[a][0] == Optimisation_options.LOADSUMBAL or optimisation_options[a][0] == Optimisation_options.MINCOSTLSB), forall(k, 0, self.model.num_lecturers, 0 <= nu(self.model.abs_lec_diff[k]) and nu(self.model.abs_lec_diff[k]) <= self.model.lec_upper_quotas[k]))'),
                               ('names-used-by-the-criteria-run-so-far', "used('obj_maxsize') == exists(t, 0, _k, optimisation_options[t][0] == Optimisation_options.MAXSIZE) and used('obj_minsize') == exists(t, 0, _k, optimisation_options[t][0] == Optimisation_options.MINSIZE) and used('obj_mincost') == exists(t, 0, _k, optimisation_options[t][0] == Optimisation_options.MINCOST) and used('obj_minsqcost') == exists(t, 0, _k, optimisation_options[t][0] == Optimisation_options.MINSQCOST) and used('lec_max_abs_diff') == exists(t, 0, _k, optimisation_options[t][0] == Optimisation_options.LOADMAXBAL) and used('lec_sum_abs_diff') == exists(t, 0, _k, optimisation_options[t][0] == Optimisation_options.LOADSUMBAL) and used('obj_mincostlsb') == exists(t, 0, _k, optimisation_options[t][0] == Optimisation_options.MINCOSTLSB)")])},
     modifies=['self.info_string', 'self.solve_performed', 'ghost:feas', 'ghost:val', 'ghost:status', 'ghost:hist', 'ghost:solves', 'ghost:objective', 'ghost:feas_at_solve', 'ghost:used:obj_maxsize', 'ghost:used:obj_minsize', 'ghost:used:obj_mincost', 'ghost:used:obj_minsqcost', 'ghost:used:lec_max_abs_diff', 'ghost:used:lec_sum_abs_diff', 'ghost:used:obj_mincostlsb'],
     ensures=[('only-the-last-solve-may-have-failed', 'forall(u, old(solves()), solves() - 1, hist(u) == 1)'),
@@ -304,7 +325,7 @@ CONTRACTS = {
  M + 'run': dict(
     params={'msg': 'bool', 'timeLimit': 'optint', 'threads': 'optint', 'write': 'bool'},
     requires=MODEL_OK + ['pairs_ok(self.model)', 'has_vars(self.model.rank_lists)', 'self.model.num_lecturers >= 1', 'rows_sorted(self.model)',
-              ('pair-variables-are-binary', 'implies(feas(), pairs_binary(self.model))'), ('well-formed-lecturer-quotas', 'forall(k, 0, self.model.num_lecturers, 0 <= self.model.lec_lower_quotas[k] and 0 <= self.model.lec_targets[k] and self.model.lec_targets[k] <= self.model.lec_upper_quotas[k])'), ('deviation-variables-are-bounded', 'implies(feas() and exists(a, 0, len(self.optimisation_options), self.optimisation_options[a][0] == Optimisation_options.LOADMAXBAL or self.optimisation_options[a][0] == Optimisation_options.LOADSUMBAL or self.optimisation_options[a][0] == Optimisation_options.MINCOSTLSB), forall(k, 0, self.model.num_lecturers, 0 <= nu(self.model.abs_lec_diff[k]) and nu(self.model.abs_lec_diff[k]) <= self.model.lec_upper_quotas[k]))'),
+              ('pair-variables-are-binary', 'implies(feas(), pairs_binary(self.model))'), ('rank-list-sums-for-every-weight', 'forall(j, 0, len(self.model.rank_lists), wsum(self.model.rank_lists[j]) == RANKW(j))'), ('well-formed-lecturer-quotas', 'forall(k, 0, self.model.num_lecturers, 0 <= self.model.lec_lower_quotas[k] and 0 <= self.model.lec_targets[k] and self.model.lec_targets[k] <= self.model.lec_upper_quotas[k])'), ('deviation-variables-are-bounded', 'implies(feas() and exists(a, 0, len(self.optimisation_options), self.optimisation_options[a][0] == Optimisation_options.LOADMAXBAL or self.optimisation_options[a][0] == Optimisation_options.LOADSUMBAL or self.optimisation_options[a][0] == Optimisation_options.MINCOSTLSB), forall(k, 0, self.model.num_lecturers, 0 <= nu(self.model.abs_lec_diff[k]) and nu(self.model.abs_lec_diff[k]) <= self.model.lec_upper_quotas[k]))'),
               'implies(self.extra_constraints[Extra_constraints.STAB], two_sided(self.model) and stab_vars(self.model.pairs) and lists_two_sided(self.model.lecturer_lists))',
               'implies(self.instance_options[Instance_options.PC], len(self.model.project_closures) == self.model.num_projects)',
               ('each-criterion-at-most-once', 'forall(a, 0, len(self.optimisation_options), forall(b, a + 1, len(self.optimisation_options), self.optimisation_options[a][0] != self.optimisation_options[b][0]))'),
@@ -315,7 +336,7 @@ CONTRACTS = {
               "not used('obj_maxsize')", "not used('obj_minsize')", "not used('obj_mincost')", "not used('obj_minsqcost')", "not used('lec_max_abs_diff')", "not used('lec_sum_abs_diff')", "not used('obj_mincostlsb')"],
     modifies=['self.info_string', 'self.solver', 'self.model.info_string', 'self.model.lec_overload', 'self.model.lec_underload', 'self.solve_performed', 'ghost:feas', 'ghost:val', 'ghost:status', 'ghost:hist', 'ghost:solves', 'ghost:objective', 'ghost:feas_at_solve', 'ghost:used:obj_maxsize', 'ghost:used:obj_minsize', 'ghost:used:obj_mincost', 'ghost:used:obj_minsqcost', 'ghost:used:lec_max_abs_diff', 'ghost:used:lec_sum_abs_diff', 'ghost:used:obj_mincostlsb'],
     returns=('statusstr',),
-    defs=dict(ULC, needs_lb=([], 'exists(a, 0, len(self.optimisation_options), self.optimisation_options[a][0] == Optimisation_options.LOADMAXBAL or self.optimisation_options[a][0] == Optimisation_options.LOADSUMBAL or self.optimisation_options[a][0] == Optimisation_options.MINCOSTLSB)'),
+    defs=dict(ULC, RANKW=(['j'], 'Sum(i, len(self.model.pairs), Sum(c, len(self.model.pairs[i]), ite(self.model.pairs[i][c].rank_student == j + 1, W(self.model.pairs[i][c]), 0)))'), needs_lb=([], 'exists(a, 0, len(self.optimisation_options), self.optimisation_options[a][0] == Optimisation_options.LOADMAXBAL or self.optimisation_options[a][0] == Optimisation_options.LOADSUMBAL or self.optimisation_options[a][0] == Optimisation_options.MINCOSTLSB)'),
               dev_ok=(['k'], 'nu(self.model.abs_lec_diff[k]) >= varsum(self.model.lecturer_lists[k]) - self.model.lec_targets[k] and nu(self.model.abs_lec_diff[k]) >= self.model.lec_targets[k] - varsum(self.model.lecturer_lists[k])')),
     ensures=[('solves-at-least-once', 'solves() > old(solves())'),
              # what every solution of the final program satisfies (C01 / C03 / C05 end to end: the constraint builders are called when required)
